@@ -83,7 +83,7 @@ Mismatch(out, ex, d0, n, h, lo2, hi2) ==
 \* The operational model of the online monitor (DenseOn.tla) runs next to the contract: it is installed for the AST
 \* in force when it covers all its operators (standard semantics), and every update() is also given to it.
 \* A difference (returned batch, error path) is recorded as model drift - a diagnostic, not a verdict.
-Install(m) == IF m.cfg.M.sem = "standard" /\ OnlineCOK(m.inst)
+Install(m) == IF OnlineCOK(m.inst)
               THEN [m EXCEPT !.mem = InitMemC(m.inst), !.modelled = TRUE, !.mout = <<>>]
               ELSE [m EXCEPT !.mem = <<>>, !.modelled = FALSE, !.mout = <<>>]
 Doubled(sl) == [i \in 1..Len(sl) |-> <<IF sl[i][1] >= PInf THEN PInf ELSE 2 * sl[i][1], sl[i][2]>>]
@@ -92,7 +92,7 @@ ModelStep(m, e) ==
   IF ~m.modelled THEN m
   ELSE
     LET batch == [v \in VarsOf(m.inst) |-> IF v \in DOMAIN e.w THEN e.w[v] ELSE <<>>]
-        r == UpdateC(m.inst, m.mem, batch, m.cfg.S, {})
+        r == UpdateCM(m.inst, m.mem, batch, m.cfg.S, {}, m.cfg.M)
         differs == r.err # (e.exc # NoExc) \/ (~r.err /\ Doubled(r.ret) # e.ret) IN
     IF r.err \/ HasUndefL(r.ret) THEN [m EXCEPT !.modelled = FALSE, !.drift = IF r.err /\ differs /\ m.drift = 0 THEN m.nupd ELSE m.drift]
     ELSE [m EXCEPT !.mem = r.M, !.mout = m.mout \o Doubled(r.ret),
@@ -100,9 +100,9 @@ ModelStep(m, e) ==
                    !.compared = IF differs \/ m.drift # 0 THEN m.compared ELSE m.compared + 1]
 \* offline: evaluate() is also computed by the operational model DenseOff!OffC
 ModelEval(m, e) ==
-  IF m.cfg.M.sem # "standard" \/ ~OfflineCOK(m.phi) \/ \E v \in VarsOf(m.phi) : v \notin DOMAIN e.w THEN [m EXCEPT !.modelled = FALSE]
+  IF ~OfflineCOK(m.phi) \/ \E v \in VarsOf(m.phi) : v \notin DOMAIN e.w THEN [m EXCEPT !.modelled = FALSE]
   ELSE
-    LET r == OffC(m.phi, [v \in VarsOf(m.phi) |-> e.w[v]], m.cfg.S) IN
+    LET r == OffCM(m.phi, [v \in VarsOf(m.phi) |-> e.w[v]], m.cfg.S, m.cfg.M) IN
     IF r.err \/ HasUndefL(r.out) THEN [m EXCEPT !.modelled = FALSE, !.drift = IF r.err /\ e.exc = NoExc THEN 1 ELSE 0]
     ELSE [m EXCEPT !.modelled = TRUE, !.mout = Doubled(r.out),
                    !.drift = IF e.exc # NoExc \/ Doubled(r.out) # e.ret THEN 1 ELSE 0,
@@ -304,7 +304,7 @@ Explained(c, fl) ==
   \* Exact where the operational model applies: the returned step function must be the one DenseOff!OffC produces.
   (IF f.clause \in {"evaluate.start", "evaluate.value"}
       /\ \E i \in 1..Len(ms) : ms[i].phase = "offline" /\ HasOp(ms[i].phi, Timed) /\ HasData(ms[i]) /\ D0(ms[i]) > 0
-      /\ \A j \in 1..Len(ms) : (ms[j].phase = "offline" /\ ms[j].phi.op # "null" /\ OfflineCOK(ms[j].phi) /\ ms[j].cfg.M.sem = "standard")
+      /\ \A j \in 1..Len(ms) : (ms[j].phase = "offline" /\ ms[j].phi.op # "null" /\ OfflineCOK(ms[j].phi))
                                   => SameAsModel(ms[j])
    THEN {"F-04b"} ELSE {}) \cup
   \* F-05c: the online counterpart: once/historically[a,b] with a > 0 (also inside since[a,b] and pastified
@@ -315,7 +315,7 @@ Explained(c, fl) ==
   (IF f.clause = "update.value"
       /\ \E i \in 1..Len(ms) : ms[i].phase = "online" /\ ms[i].inst.op # "null" /\ HasData(ms[i]) /\ D0(ms[i]) > 0
             /\ \E q \in SubF(ms[i].inst) : q.op \in Timed /\ q.a > 0
-      /\ \A j \in 1..Len(ms) : (ms[j].phase = "online" /\ ms[j].inst.op # "null" /\ OnlineCOK(ms[j].inst) /\ ms[j].cfg.M.sem = "standard")
+      /\ \A j \in 1..Len(ms) : (ms[j].phase = "online" /\ ms[j].inst.op # "null" /\ OnlineCOK(ms[j].inst))
                                   => SameAsModel(ms[j])
    THEN {"F-05c"} ELSE {})
 
